@@ -121,7 +121,9 @@ def run(rep):
         src_ = stx[1]
         is_members = src_ == want_src or (src_[0] == 'vf' and src_[2] == 'naga::TypeInner::Struct' and src_[3] == 'members' and src_[1][0] == 'f' and src_[1][2] == 'inner' and
                                           src_[1][1][0] == 'tf' and src_[1][1][2] == 1 and src_[1][1][1][0] == 'elem' and src_[1][1][1][2] == st[1])
-        ok_src = is_members and stx[3] == el and not stx[5] and only_builtin_filter
+        # (what the predicate is applied to - the member, or something mapped from it - is judged by the truth table below: only the type of THIS
+        # element's member is defined there)
+        ok_src = is_members and not stx[5] and only_builtin_filter
         mt = ('f', ('idx', ('f', st[1][1], 'types'), ('f', el, 'ty')), 'inner')
         got = {}
         for label, innerv in (('array<T>', V(TI + 'Array', base='B', size=V('naga::ArraySize::Dynamic'), stride=16)),
